@@ -10,6 +10,7 @@
 #include "error.hpp"
 
 #include "free_list_utils.hpp"
+#include "detail/verif_hooks.hpp"
 
 using namespace foonathan::memory;
 using namespace detail;
@@ -229,6 +230,7 @@ void foonathan::memory::detail::swap(small_free_memory_list& a, small_free_memor
 
 void small_free_memory_list::insert(void* mem, std::size_t size) noexcept
 {
+    FOONATHAN_MEMORY_VERIF_INSERT(this, mem, size, node_size_);
     FOONATHAN_MEMORY_ASSERT(mem);
     FOONATHAN_MEMORY_ASSERT(is_aligned(mem, max_alignment));
     debug_fill_internal(mem, size, false);
